@@ -12,7 +12,13 @@ Python `ast` only; no repo code is executed.  What is extracted
   * the branch thresholds of `expmint` and `_expm_SS` (eta tests, `theta_13`), which method each
     branch calls, and the `getEPQ` switch (`norm1 <= 2.0978...` -> getEPQ1 else getEPQ2);
   * the call shapes `mf._solve_P_Q(U, V)` (exp) and `_solve_P_Q_2(P, Q)` (integrals) — numerator
-    first, denominator second.
+    first, denominator second;
+  * the driver logic of `expmint` / `_expm_SS` (which norm quantities enter `eta_1..eta_5`, the doubles of the
+    thresholds, the scaling rule `max(int(np.<round>(np.<log>(eta_5 / theta_13))), 0)` with its nilpotent guard, the
+    `_ell` increment, the squaring loop `for _ in range(<expr>)` with its body), the `np.allclose(I_test, I)`
+    tolerances of `_geti2` (numpy defaults unless given), the two power-series loops (`tol`, `maxloops`, start `j`,
+    loop condition, body, raise test) of `_geti2` / `expmint_pow`, the assignments of `_procBhalf` and the norm
+    expression of `getEPQ` — statements as `ast.unparse` normal forms, pinned by theorem `driver_logic_pinned`.
 
 Literals are taken as the exact rationals of their *decimal text*; where the nearest double is a
 different number (six + six literals of the order-9 table of `_geti2`) the double is emitted too.
